@@ -66,6 +66,7 @@ COLS = ["a", "b", "y"]
 
 
 LABEL_ORDER = [None]  # column order of labelled samples in the current case (None: the reference's order)
+RENAME = [None]       # column labels of the current case: None (a / b / y) or a mapping to integer labels with the target labelled 0
 
 
 def row(a, y=None, b=0.25, cols=None):
@@ -77,6 +78,8 @@ def row(a, y=None, b=0.25, cols=None):
         df = df[list(LABEL_ORDER[0])]  # the reference's column names in another order (columns are what they are by name)
     if cols:
         df = df.rename(columns=cols)
+    if RENAME[0]:
+        df = df.rename(columns=RENAME[0])
     return df
 
 
@@ -292,6 +295,9 @@ def make_reference(rng, N, acc_noise):
 
 
 def build(cfg, ctx, base):
+    RENAME[0] = {"y": 0, "a": 1, "b": 2} if cfg.get("int_labels") else None
+    if RENAME[0]:
+        ctx.count("cases_with_integer_column_labels_target_0")
     LABEL_ORDER[0] = cfg.get("label_order")
     if LABEL_ORDER[0]:
         ctx.count("cases_with_permuted_label_columns")
@@ -309,7 +315,11 @@ def build(cfg, ctx, base):
     if cfg["oracle_len"] is None:
         cfg = dict(cfg, oracle_len=cfg["N"])  # documented default: as many labelled samples as the reference has rows
     del LOG[:]
-    det.set_reference(ref, target_name="y")
+    if RENAME[0]:
+        # a frame made from an array: integer column labels, the target in the first column under the label 0
+        det.set_reference(ref[["y", "a", "b"]].rename(columns=RENAME[0]), target_name=0)
+    else:
+        det.set_reference(ref, target_name="y")
     m = Model(cfg["sensitivity"], cfg["k"], cfg["oracle_len"])
     stats, err = m.stats_from_log(list(LOG), ref[["a", "b"]].to_numpy(), ref["y"].to_numpy())
     if err:
@@ -328,7 +338,7 @@ def build(cfg, ctx, base):
 EXH_CFGS = [
     dict(N=6, k=2, oracle_len=2, sensitivity=1.0, noise=0.2, ref_seed=1),
     dict(N=5, k=2, oracle_len=3, sensitivity=0.5, noise=0.3, ref_seed=2, label_order=["b", "y", "a"]),
-    dict(N=8, k=3, oracle_len=3, sensitivity=0.0, noise=0.2, ref_seed=3),
+    dict(N=8, k=3, oracle_len=3, sensitivity=0.0, noise=0.2, ref_seed=3, int_labels=True),
     dict(N=6, k=3, oracle_len=4, sensitivity=2.0, noise=0.35, ref_seed=4),
 ]
 STARTS = {"fresh": [], "waiting": None, "after_confirmation": None, "after_ruled_out": None}
@@ -454,6 +464,8 @@ def run_case(case, ctx):
     lo_ = [None, None, ["b", "a", "y"], ["y", "b", "a"], ["b", "y", "a"]][int(rng.integers(0, 5))]
     if lo_:
         cfg["label_order"] = lo_
+    if rng.random() < 0.2:
+        cfg["int_labels"] = True
     base = dict(cfg=cfg)
     r = build(cfg, ctx, base)
     if r is None:
